@@ -522,7 +522,7 @@ fn file_offsets(w: &mut Worker) {
 
 fn scale(w: &mut Worker) {
     file_offsets(w);
-    let sizes: Vec<usize> = with_thresholds_usize(w.tier.pick(vec![300, 3000], vec![300, 3000, 100_000]), w.tier.pick(4096, 65536));
+    let sizes: Vec<usize> = with_thresholds_usize(w.tier.pick(vec![300, 3000, 12_000, 70_000], vec![300, 3000, 12_000, 70_000, 100_000, 300_000]), w.tier.pick(4096, 65536));
     let rig = Rig::new(OnError::Continue);
     let k = |label: Option<&'static str>, output: bool| Line { label, output, cmd: Cmd::K };
     let nope = Line { label: None, output: false, cmd: Cmd::Nope };
